@@ -239,6 +239,8 @@ def defs_with_conditions(bf, local):
                 nm = strip_generics(rv.d['adt']) + ('::' + rv.d['variant'] if rv.d.get('is_enum') else '')
                 fl = rv.d.get('fields', [])
                 v = ('agg', nm, tuple((fl[i] if i < len(fl) else str(i), term_of_operand(bf, o)) for i, o in enumerate(rv.ops)))
+            elif rv.k == 'agg' and rv.d.get('ak') == 'tuple':
+                v = ('tuple', tuple(term_of_operand(bf, o) for o in rv.ops))
             elif rv.k == 'bin':
                 v = (rv.d['op'], term_of_operand(bf, rv.ops[0]), term_of_operand(bf, rv.ops[1]))
             elif rv.k == 'cast':
